@@ -259,3 +259,14 @@ def run(ctx):
     ctx.guard(r08_1)
     ctx.guard(r08_2)
     ctx.guard(r08_3)
+
+
+_run_before_r09_8 = run
+
+
+def run(ctx):
+    _run_before_r09_8(ctx)
+    # the entry points make their solver calls in the caller's autograd mode (for reversible Heun the initial solver state
+    # is computed outside the adjoint Function and only its ordinary autograd graph carries its cotangents to the parameters)
+    from . import c09
+    ctx.guard(c09.r09_8)
